@@ -50,7 +50,7 @@ func TestVerifC17Wire(t *testing.T) {
 			maxFiles = 2
 		}
 		x.Tree = verifnet.GenTree(rt, x.Chunk, verifnet.GenOpts{MaxFiles: maxFiles, MinFiles: 1, MaxChunks: 10})
-		x.Streams = rapid.IntRange(1, 6).Draw(rt, "streams")
+		x.Streams = rapid.IntRange(1, 8).Draw(rt, "streams")
 		x.Conns = rapid.SampledFrom([]int{1, 1, 1, 2}).Draw(rt, "conns")
 		x.SendResume, x.RecvResume = true, rapid.IntRange(0, 4).Draw(rt, "recv_resume") != 0
 		x.NoRootDir = true
